@@ -238,6 +238,10 @@ func TestVsim(t *testing.T) {
 			break
 		}
 		current = fmt.Sprintf("prop=%s seed=%d", *flagProp, seed)
+		if vsimRaceBuild {
+			// a race report ends the process: say which run it belongs to
+			fmt.Fprintf(os.Stderr, "VSIM-RUN seed=%d\n", seed)
+		}
 		vsimProgress.Add(1)
 		runParams := copyParams(params)
 		if derive := twoPass[*flagProp]; derive != nil {
